@@ -1285,6 +1285,10 @@ def m_from_identity(engine, ctx, args, callee, frame):
     fn = engine.program.resolve(callee, frame.fn if frame else None)
     if fn is not None:
         return engine.run_fn(fn, args)
+    if last_ident(m.group(1)) == "Error":
+        # an error conversion whose impl is not in the loaded MIR (thiserror `#[from]` of another crate): same
+        # fallback as the `?` operator's conversion
+        return Opaque("error", ("from", m.group(2), args[0]))
     raise Untranslatable("From: " + callee)
 
 
